@@ -9,4 +9,5 @@ import ConjureVerif.Props.C12
 import ConjureVerif.Props.C13
 import ConjureVerif.Props.C15
 import ConjureVerif.Props.C16
+import ConjureVerif.Props.C17
 import ConjureVerif.Props.C18
